@@ -132,6 +132,7 @@ h("VerifCrashPutAC", D, CR, CRB % 8, "kill during an upload (AC)", unwind=24, sw
 h("VerifCrashPutCasZstd", D, CR, CRB % 14, "kill during an upload (compressed CAS): restart succeeds, sizes agree; a file whose table is not finalised is rejected by readHeader", unwind=24, switches=-1)
 h("VerifCrashPutCasZstdBad", D, CR, CRB % 14 + "; the stream has the declared length but differs from the blob at a symbolic byte", "kill during an upload that is being refused (wrong bytes, compressed CAS): never acknowledged, never served after the restart", unwind=24, switches=-1)
 h("VerifCrashFetchCasZstd", D, CR, "backend fetch of a 1 500 000-byte blob in compressed CAS mode, casblob file of symbolic length 46..4 MiB with a valid finalised header, killed at step 0..8 with an arbitrary prefix of the interrupted write on disk; restart; read raw or as zstd, size known or unknown", "kill during a backend fetch: restart succeeds, a file cut short is never served, a completed fetch is served", unwind=24, switches=-1)
+h("VerifCrashOverwriteAC", D, CR, "an AC key with a complete value (symbolic size) is overwritten by a well-formed upload (<= 2 MiB), killed at file-system step 0..9 (the background remover's unlink included); restart with the real loader; read with size known or unknown", "kill during an overwrite: restart succeeds; one whole version is served - the new one if the overwrite was acknowledged; the key is not lost", unwind=24, switches=-1)
 h("VerifCrashFetchCasRaw", D, CR, "backend fetch of a blob of symbolic size 46..4 MiB stored uncompressed, killed at step 0..8 with an arbitrary prefix of the interrupted write on disk; restart; read with size known or unknown", "kill during a backend fetch (uncompressed CAS)", unwind=24, switches=-1)
 h("VerifCrashFetchAC", D, CR, "as VerifCrashFetchCasRaw for an action-cache entry", "kill during a backend fetch (AC)", unwind=24, switches=-1)
 
@@ -157,6 +158,7 @@ h("VerifGetActionResultInline", SV, ACH, "stored result with stdout and one outp
 h("VerifGetActionResultMiss", SV, ACH, "-", "validated miss maps to NotFound; nil request / digest rejected")
 
 h("VerifBytestreamRead", SV, ["zz_verif_bsread.go"], "blobs/<h>/5000000 (three 2 MiB messages); read_offset and read_limit any int64; blob present or absent; cache reader with or without one short read; client gone at the 1st..3rd Send or not", "ByteStream.Read sends exactly [offset,n) in order, never more than a non-zero read_limit; OutOfRange/NotFound mapping; reader closed", unwind=16)
+h("VerifFetchBlob", SV, ["zz_verif_asset.go"], "one URI, sha256 checksum qualifier given or not, blob cached (symbolic size) or not; origin: transport error / 404 / 200 with a body of symbolic length 1..2^30 that is or is not the requested blob, Content-Length known or -1; max_blob_size symbolic", "FetchBlob acknowledges only a cached blob or fetched bytes stored under the digest they really have (the requested one if a checksum was given); size limit; body closed", unwind=16)
 h("VerifSpliceBlob", SV, ["zz_verif_splice.go"], "two chunks of symbolic sizes 1..2^30, each present or absent; declared size, max_blob_size symbolic; the cache has room, refuses without reading (507), or already holds the blob; the concatenation is or is not the declared blob", "SpliceBlob acknowledges only a stored concatenation of the right size and digest; size limit; no goroutine or chunk reader left on any return", unwind=16)
 HT = ["zz_verif_http.go", "zz_verif_ac.go"]
 h("VerifHTTPGet", SV, HT, "GET /cas/<h> or /ac/<h> (raw), Accept-Encoding with or without zstd, cache answers miss / error / stream of symbolic size", "HTTP GET: the read goes to the URL's namespace, compressed reads only from the CAS, body = the blob, Content-Length = size", unwind=16)
@@ -171,7 +173,7 @@ HASH = "sha256 replaced by a provenance model: collision-free, digest equals the
 FSM = "file system model with process-kill semantics (writes visible in program order); one read of a regular file returns all that is available"
 STUBS = ["prometheus, log: empty bodies", "fmt.Errorf / errors.Is modelled (text opaque, %w kept)", "time.Now fixed"]
 P = {
- "C01": (["VerifWriteZstd2", "VerifPutCasZstd", "VerifPutCasRaw", "VerifPutAC", "VerifBatchUpdateBlobs", "VerifBytestreamWrite2", "VerifBytestreamWriteZstd2", "VerifHTTPPut", "VerifSpliceBlob"], ["VerifWriteZstd3", "VerifWriteIdentity", "VerifPutCasZstdProxy", "VerifPutCasRawProxy"],
+ "C01": (["VerifWriteZstd2", "VerifPutCasZstd", "VerifPutCasRaw", "VerifPutAC", "VerifBatchUpdateBlobs", "VerifBytestreamWrite2", "VerifBytestreamWriteZstd2", "VerifHTTPPut", "VerifSpliceBlob", "VerifFetchBlob"], ["VerifWriteZstd3", "VerifWriteIdentity", "VerifPutCasZstdProxy", "VerifPutCasRawProxy"],
          [CODEC, HASH, FSM], ["real sha256 and zstd", "blobs of more than 3 chunks", "the HTTP/gRPC transports' own length enforcement"]),
  "C02": (["VerifReadUncompressed4", "VerifReadZstd4", "VerifReadIdentity", "VerifReadWrongSize", "VerifGetCasZstd", "VerifGetCasZstdAsZstd", "VerifGetCasRaw", "VerifGetAC", "VerifGetSpecial", "VerifHTTPGet", "VerifBatchReadBlobs", "VerifBytestreamRead"],
          ["VerifReadUncompressed6", "VerifReadZstd6", "VerifGetCasRawAsZstd"], [CODEC, FSM], ["that a standard zstd decoder decodes the frames", "tables of more than 6 entries", "read offsets beyond the blob when the size is not given"]),
@@ -183,7 +185,7 @@ P = {
  "C06": (["VerifValidatedAC", "VerifValidatedACMixed", "VerifValidatedACDir", "VerifValidatedACProxy", "VerifGetActionResultMiss"], ["VerifValidatedAC2"], [FSM, "proto.Unmarshal by identity: stored bytes decode to the registered message"], ["real protobuf decoding", "races between the check and a concurrent eviction"]),
  "C07": (["VerifConcReadersCorrupt", "VerifConcReadOverwrite", "VerifConcReadOverwriteEvict", "VerifConcPutPut", "VerifConcCorruptReadPut", "VerifFindMissingProxy1", "VerifFindMissingBatchProxy", "VerifBytestreamWrite2"], ["VerifConcPutPutDeep", "VerifConcReadOverwriteDeep", "VerifValidatedACProxy"], [FSM, HASH, CODEC, "sequentially consistent interleaving of goroutines at the scheduling points (mutex acquisition, file-system step, channel operation, go statement); a blocked goroutine hands over round-robin"],
          ["data races on the abstract byte objects and inside the environment models (the happens-before obligations cover pointer loads/stores and map operations of repository and dependency code; weak-memory effects are not modelled)", "more than three goroutines per scenario, more preemptions than the bound, round-robin hand-over at blocking points", "evictions under space pressure and backend fetches racing with requests", "handlers above the disk layer other than ByteStream.Write and the FindMissing/validated-AC worker pool"]),
- "C08": (["VerifCrashPutCasRaw", "VerifCrashPutAC", "VerifCrashPutCasZstd", "VerifCrashPutCasZstdBad", "VerifCrashFetchCasZstd", "VerifCrashFetchCasRaw", "VerifCrashFetchAC"], [], [FSM, HASH, CODEC], ["power loss, write reordering, fsync (process-kill semantics only)", "kill during start-up migration", "kill during overwrite/eviction (uploads and backend fetches into an empty cache only)"]),
+ "C08": (["VerifCrashPutCasRaw", "VerifCrashPutAC", "VerifCrashPutCasZstd", "VerifCrashPutCasZstdBad", "VerifCrashFetchCasZstd", "VerifCrashFetchCasRaw", "VerifCrashFetchAC"], ["VerifCrashOverwriteAC"], [FSM, HASH, CODEC], ["power loss, write reordering, fsync (process-kill semantics only)", "kill during start-up migration", "kill during eviction under space pressure; overwrites only for an AC key"]),
  "C09": (["VerifLoad2", "VerifLoadDup", "VerifLoadExtras", "VerifGetCasRawInZstdMode", "VerifGetCasZstdInRawMode"], ["VerifLoad3", "VerifGetCasRawInZstdModeAsZstd", "VerifGetCasZstdInRawModeAsZstd"], [FSM, "access times are the model's (distinct) integers"], ["real readdir order and atime semantics (relatime)", "legacy v0/v1 layouts (migration code is executed only on a current layout)", "more than 3 files", "schedules other than round-robin"]),
  "C10": (["VerifFindMissing3", "VerifFindMissingProxy1", "VerifFindMissingBatch", "VerifFindMissingBatchProxy", "VerifFilterNonNil", "VerifContains", "VerifProxyGetCasZstd"], ["VerifFindMissing4", "VerifFindMissingProxy2", "VerifFindMissingBatch2"], ["the backend is an arbitrary per-hash verdict"], ["hundreds of digests with all states symbolic", "512 real workers", "more than 2 preemptive context switches"]),
  "C11": (["VerifValidateFilesDirs", "VerifValidateSymlinks", "VerifValidateNil", "VerifGetActionResultInline", "VerifGetActionResultMiss", "VerifUpdateActionResult", "VerifHTTPPutAC"], [], ["strings are ASCII (Go byte strings and SMT code-point strings agree there)"], ["field-by-field fidelity of proto.Marshal/Unmarshal and protojson", "non-ASCII strings"]),
@@ -193,7 +195,7 @@ P = {
  "C15": (["VerifGrpcACKeyMangling", "VerifLookupKey", "VerifGetSpecial", "VerifHTTPGet", "VerifHTTPInstanceName"], [], ["sha256 is injective on byte strings (digest texts are fresh 64-hex strings with pairwise (content equal <=> digest equal))", "strings are ASCII", "disk.Cache replaced by a recording stub"], ["sha256 itself", "non-ASCII instance names", "isolation after eviction (C03/C04)", "the HTTP path-prefix clause: harnesses VerifParseRequestURL / VerifHTTPGrpcSameKey exist but no solver decides 'every URL /I/ac/h matches ^/?(.*/)?(ac/|cas/)([a-f0-9]{64})$ with instance I' within budget (cvc5 and z3 time out at 60 s even with |I| <= 6), so the URL grammar is not claimed"]),
  "C16": (["VerifBytestreamWrite2", "VerifBytestreamWriteZstd2", "VerifQueryWriteStatus"], ["VerifBytestreamWrite3"], ["disk.Cache replaced by a contract stub (Put consumes the reader and accepts exactly the declared bytes)"], ["grpc-go's own stream behaviour", "more than 3 messages", "more than 2 preemptive context switches"]),
  "C17": (["VerifLRUReserve3", "VerifLRURemove", "VerifLRUAdd3", "VerifPutAC", "VerifProxyGetAC"], ["VerifLRUReserve4", "VerifPutCasZstd", "VerifPutCasRaw", "VerifProxyGetCasRaw"], [FSM], ["real unlink latency"]),
- "C18": (["VerifPutAC", "VerifPutCasRaw", "VerifContains", "VerifProxyGetAC", "VerifBatchUpdateBlobs", "VerifBytestreamWrite2", "VerifHTTPPut", "VerifFindMissingBatchProxy", "VerifSpliceBlob"], ["VerifPutCasZstd", "VerifProxyGetCasRaw", "VerifProxyGetCasZstd"], [FSM, HASH], ["transport-level message size limits"]),
+ "C18": (["VerifPutAC", "VerifPutCasRaw", "VerifContains", "VerifProxyGetAC", "VerifBatchUpdateBlobs", "VerifBytestreamWrite2", "VerifHTTPPut", "VerifFindMissingBatchProxy", "VerifSpliceBlob", "VerifFetchBlob"], ["VerifPutCasZstd", "VerifProxyGetCasRaw", "VerifProxyGetCasZstd"], [FSM, HASH], ["transport-level message size limits"]),
  "C19": (["VerifValidateConfigRefuses", "VerifValidateConfigAccepts", "VerifFlagsYamlAgree"], [], ["net.SplitHostPort modelled by its contract (host:port / [host]:port)", "strings are ASCII"], ["the flags-versus-YAML agreement clause (urfave/cli and yaml.v3 are outside reach; F13/F14 candidates of DESIGN section 1 are not decided)", "environment-variable resolution", "setTLSConfig / setProxy / setLogger"]),
  "C20": (["VerifWriteZstd2", "VerifReadUncompressed4", "VerifReadZstd4", "VerifReadIdentity", "VerifGetCasRawInZstdMode", "VerifGetCasZstdInRawMode"], ["VerifWriteZstd3", "VerifReadUncompressed6", "VerifReadZstd6", "VerifGetCasRawInZstdModeAsZstd", "VerifGetCasZstdInRawModeAsZstd"], [CODEC, FSM], ["that chunk payloads are standard zstd frames", "files with more table entries than the bound"]),
 }
